@@ -127,6 +127,9 @@ func init() {
 	})
 }
 
+// the type of the symbolic flows (a harness may choose another type that allows the same nodes)
+var verifFlowType = flows.FlowTypeMessaging
+
 // node kinds of the symbolic flow graph
 const (
 	vkPlain     = iota // no router: first exit
@@ -253,7 +256,7 @@ func verifBuildLazyFlow(flow int, specs []verifNodeSpec) flows.Flow {
 		sp.lazy, sp.nnodes = true, len(specs)
 		nodes = append(nodes, verifBuildNode(flow, n, sp))
 	}
-	return definition.VerifNewFlowUnchecked(verifFlowUUID(flow), "F"+string(rune('0'+flow)), "eng", flows.FlowTypeMessaging, definition.NewLocalization(), nodes)
+	return definition.VerifNewFlowUnchecked(verifFlowUUID(flow), "F"+string(rune('0'+flow)), "eng", verifFlowType, definition.NewLocalization(), nodes)
 }
 
 func verifEngine(maxSteps, maxResumes int) flows.Engine {
